@@ -222,6 +222,10 @@ class Program:
                 self._index_body(m, n.body, qn, c, None)
             elif isinstance(n, (ast.If, ast.Try)) and top:
                 blocks = [n.body, n.orelse]
+                if isinstance(n, ast.If) and isinstance(n.test, ast.Name) and isinstance(m.consts.get(n.test.id), ast.Constant) \
+                        and isinstance(m.consts[n.test.id].value, bool):
+                    # `if FLAG:` on a module constant assigned once above: only the branch taken defines names
+                    blocks = [n.body if m.consts[n.test.id].value else n.orelse]
                 if isinstance(n, ast.Try):
                     blocks += [h.body for h in n.handlers] + [n.finalbody]
                 for b in blocks:
